@@ -1,9 +1,121 @@
-(* Property C01 -- theorems only (each closed by `exact <lemma>` and followed by Print Assumptions). *)
+(* Property C01 -- theorems only.  Each is closed by `exact <lemma>` and followed by Print Assumptions.
+
+   Vocabulary.  HashModel.step / run = the executable model of momo::HashSet / HashMap (pvFind, pvAddNogrow, pvAddGrow,
+   Reserve, pvRelocateItems with an arbitrary failure point, Remove, Remove(filter), Clear, copy, iteration).  It is run
+   against the real containers on every check (correspondence incl. the internal shape).  `ModelOK` = the facts about a
+   bucket kind the proofs need (index functions stay inside the table; the decoded max-probe bound never
+   under-approximates a recorded probe); HashInstProofs.momo_instances_ok proves them for the functions REGENERATED
+   from the headers.  `hall s` = all items stored in all generations; `spec_step` = the abstract finite map. *)
 From Coq Require Import ZArith List Permutation.
-From C01 Require Import HashModel HashProofs.
+From C01 Require Import HashModel HashSpec HashProofs HashInst HashInstProofs.
 Import ListNotations.
 Local Open Scope Z_scope.
 
-Theorem C01_bucket_find_sound : forall k l i pos v, bfind k l i = Some (pos, v) -> In (k, v) l.
-Proof. exact bfind_some_in. Qed.
-Print Assumptions C01_bucket_find_sound.
+(* The empty container satisfies the invariant: every stored key sits on the probe path of its home bucket, all
+   buckets before it on that path have WasFull, its displacement <= decoded GetMaxProbe of the home bucket, keys are
+   pairwise distinct over all generations, mCount is exact, no bucket exceeds maxCount. *)
+Theorem C01_hash_inv_init :
+  forall B b0 decode h cap unlimited wf0 start next maxLog Binv,
+    Inv B b0 decode h cap unlimited wf0 start next maxLog Binv (hinit B).
+Proof. exact hash_inv_init. Qed.
+Print Assumptions C01_hash_inv_init.
+
+(* ... and every operation (insert, find, remove by key/position, value assignment, Reserve, Clear, traversal, count,
+   Remove(filter), copy; growth and partially failed relocations included) preserves it -- for every hash function. *)
+Theorem C01_hash_inv_step :
+  forall B b0 decode upd_bound h cap unlimited wf0 wfThr start next logStart calcCapacity shift maxLog Binv,
+    ModelOK B b0 decode upd_bound cap unlimited wfThr start next logStart shift maxLog Binv ->
+    forall s o, Inv B b0 decode h cap unlimited wf0 start next maxLog Binv s ->
+      Inv B b0 decode h cap unlimited wf0 start next maxLog Binv
+          (fst (step B b0 decode upd_bound h cap unlimited wf0 wfThr start next logStart calcCapacity shift maxLog s o)).
+Proof. exact hash_inv_step. Qed.
+Print Assumptions C01_hash_inv_step.
+
+(* Find: the WasFull-guarded probe loop bounded by GetMaxProbe of the home bucket, over all generations, finds a key
+   with value v exactly when (key, v) is stored: every present key is found with its value, no other key is found. *)
+Theorem C01_find_iff_spec :
+  forall B b0 decode upd_bound h cap unlimited wf0 wfThr start next logStart shift maxLog Binv,
+    ModelOK B b0 decode upd_bound cap unlimited wfThr start next logStart shift maxLog Binv ->
+    forall s, Inv B b0 decode h cap unlimited wf0 start next maxLog Binv s -> forall k v,
+      (exists gi idx pos, hfind B b0 decode h wf0 start next s k = Some (gi, idx, pos, v)) <-> In (k, v) (hall B s).
+Proof. exact find_iff_spec. Qed.
+Print Assumptions C01_find_iff_spec.
+
+Theorem C01_find_eq_spec_lookup :
+  forall B b0 decode upd_bound h cap unlimited wf0 wfThr start next logStart shift maxLog Binv,
+    ModelOK B b0 decode upd_bound cap unlimited wfThr start next logStart shift maxLog Binv ->
+    forall s, Inv B b0 decode h cap unlimited wf0 start next maxLog Binv s -> forall k,
+      match hfind B b0 decode h wf0 start next s k with Some (_, _, _, v) => Some v | None => None end = sp_find (hall B s) k.
+Proof. exact find_eq_spec_lookup. Qed.
+Print Assumptions C01_find_eq_spec_lookup.
+
+(* One step refines the abstract map: either the implementation threw and nothing changed, or the new contents are
+   (a permutation of) the spec's new contents and the outputs agree. *)
+Theorem C01_step_refines :
+  forall B b0 decode upd_bound h cap unlimited wf0 wfThr start next logStart calcCapacity shift maxLog Binv,
+    ModelOK B b0 decode upd_bound cap unlimited wfThr start next logStart shift maxLog Binv ->
+    forall s m o s' x,
+      R B b0 decode h cap unlimited wf0 start next maxLog Binv s m ->
+      step B b0 decode upd_bound h cap unlimited wf0 wfThr start next logStart calcCapacity shift maxLog s o = (s', x) ->
+      (x = RExn /\ s' = s) \/
+      (R B b0 decode h cap unlimited wf0 start next maxLog Binv s' (fst (spec_step m o)) /\ out_equiv x (snd (spec_step m o))).
+Proof. exact hash_step_refines. Qed.
+Print Assumptions C01_step_refines.
+
+(* One full traversal GetBegin..GetEnd visits exactly the stored items, each key once, and GetCount is its length. *)
+Theorem C01_traversal_perm :
+  forall B b0 decode h cap unlimited wf0 start next maxLog Binv,
+    forall s, Inv B b0 decode h cap unlimited wf0 start next maxLog Binv s ->
+      Permutation (traverse B s) (hall B s) /\ NoDup (map fst (traverse B s)) /\ count s = Z.of_nat (length (traverse B s)).
+Proof. exact traversal_perm. Qed.
+Print Assumptions C01_traversal_perm.
+
+(* All finite histories from the empty container: invariant, contents = spec contents, all outputs agree. *)
+Theorem C01_hash_refines_all_histories :
+  forall B b0 decode upd_bound h cap unlimited wf0 wfThr start next logStart calcCapacity shift maxLog Binv,
+    ModelOK B b0 decode upd_bound cap unlimited wfThr start next logStart shift maxLog Binv ->
+    forall os,
+      Inv B b0 decode h cap unlimited wf0 start next maxLog Binv
+          (fst (run B b0 decode upd_bound h cap unlimited wf0 wfThr start next logStart calcCapacity shift maxLog (hinit B) os)) /\
+      Permutation
+        (hall B (fst (run B b0 decode upd_bound h cap unlimited wf0 wfThr start next logStart calcCapacity shift maxLog (hinit B) os)))
+        (fst (spec_run [] os (snd (run B b0 decode upd_bound h cap unlimited wf0 wfThr start next logStart calcCapacity shift maxLog (hinit B) os)))) /\
+      Forall2 out_equiv
+        (snd (run B b0 decode upd_bound h cap unlimited wf0 wfThr start next logStart calcCapacity shift maxLog (hinit B) os))
+        (snd (spec_run [] os (snd (run B b0 decode upd_bound h cap unlimited wf0 wfThr start next logStart calcCapacity shift maxLog (hinit B) os)))).
+Proof. exact hash_refines_all_histories. Qed.
+Print Assumptions C01_hash_refines_all_histories.
+
+(* The functions regenerated from momo's headers (GetStartBucketIndex, the linear and triangular GetNextBucketIndex,
+   BucketBase::GetMaxProbe, the Open2N2 / OpenN1 / Open8 max-probe encoders, GetBucketCountShift) satisfy ModelOK for
+   every valid configuration (any maxCount >= 1, any probing kind, any encoder, any growth policy, any start size). *)
+Theorem C01_momo_instances_ok :
+  forall c, cfg_valid c ->
+    ModelOK BS bs0 (decode_fn (c_bound c)) (upd_fn (c_bound c)) (c_cap c) (c_unlimited c) (c_wfThr c) start_fn
+            (next_fn (c_probing c)) (c_logStart c) (shift_fn (c_pol c) (c_cap c)) max_log (Binv_of (c_bound c)).
+Proof. exact momo_instances_ok. Qed.
+Print Assumptions C01_momo_instances_ok.
+
+(* Hence for every bucket kind of the library, EVERY hash function h and every finite history: the stored items are
+   the abstract map's items, keys are distinct, the count is exact and every reported result equals the spec's. *)
+Theorem C01_momo_refines_all_histories :
+  forall c (h : Z -> Z), cfg_valid c -> forall os,
+    let r := run_gen c h init_cfg os in
+    let sp := spec_run [] os (snd r) in
+    Permutation (hall BS (fst r)) (fst sp) /\ NoDup (map fst (hall BS (fst r))) /\
+    count (fst r) = Z.of_nat (length (fst sp)) /\ Forall2 out_equiv (snd r) (snd sp).
+Proof. exact momo_refines_all_histories. Qed.
+Print Assumptions C01_momo_refines_all_histories.
+
+(* Non-vacuity: under a CONSTANT hash a reachable state with three coexisting generations (two failed relocations)
+   satisfies the invariant; all twelve inserts succeeded, a removal in an old generation and a find succeeded. *)
+Theorem C01_nonvacuous_multigen :
+  length (gens nv_state) = 3%nat /\ map fst (traverse BS nv_state) <> [] /\
+  length (hall BS nv_state) = 11%nat /\
+  snd (run_gen nv_cfg nv_hash init_cfg nv_ops) =
+    [RBool true; RBool true; RBool true; RBool true; RBool true; RBool true; RBool true; RBool true; RBool true;
+     RBool true; RBool true; RBool true; RBool true; ROpt (Some 120)] /\
+  Inv BS bs0 (decode_fn (c_bound nv_cfg)) nv_hash (c_cap nv_cfg) (c_unlimited nv_cfg) (c_wf0 nv_cfg) start_fn
+      (next_fn (c_probing nv_cfg)) max_log (Binv_of (c_bound nv_cfg)) nv_state.
+Proof. exact nonvacuous_multigen. Qed.
+Print Assumptions C01_nonvacuous_multigen.
